@@ -106,7 +106,7 @@ def check_vertical_exact(ctx, ck, rule='R-LIT.vertical-exact'):
     no angle, no tolerance.  Reported: a comparison with a number other than 0 / +-1 (literal or a class / module
     constant), an inverse trigonometric function or isclose / round in the deciding function."""
     m = ctx.model
-    f = m.resolve_method('Pulse', 'is_non_vertical_grounded')
+    f = m.resolve_method('Pulse', 'is_non_vertical_grounded') or m.resolve_method('Pulse_Container', 'is_non_vertical_grounded')
     if f is None:
         from ..model import AnalysisError
         raise AnalysisError('anchor vanished: Pulse.is_non_vertical_grounded')
@@ -153,13 +153,17 @@ def check_vertical_exact(ctx, ck, rule='R-LIT.vertical-exact'):
             d = (dotted(n.func) or '').split('.')[-1]
             if d in TOLERANT_CALLS:
                 bad = bad or ('%s(): an angle / tolerance instead of exact zero tests of the horizontal components' % d, n)
+            if d in ('any', 'all', 'logical_and', 'logical_or', 'logical_not', 'bool'):
+                n_tests += 1
         if isinstance(n, ast.BoolOp):
             n_tests += 1
     # both horizontal components (or the pair as a slice) are consulted
     comps = set()
     for n in walk_no_nested(f.node):
         if isinstance(n, ast.Subscript) and isinstance(n.value, ast.Attribute) and n.value.attr in ('dirvec', 'dirs', 'direction'):
-            if isinstance(n.slice, ast.Constant) and n.slice.value in (0, 1, 2):
+            if isinstance(n.slice, ast.Tuple):
+                comps |= {0, 1, 2}      # (array form: which components are taken is not followed)
+            elif isinstance(n.slice, ast.Constant) and n.slice.value in (0, 1, 2):
                 comps.add(n.slice.value)
             elif isinstance(n.slice, ast.Slice):
                 up = n.slice.upper
